@@ -174,7 +174,9 @@ class KGen:
                     # what the task does inside this block it does from a component's start(): its current context is
                     # the component's own context, which hands every call on to the context of the block
                     x["comp"] = True
-                    return {"op": "enter", "t": t, "c": c, "comp": True}
+                    # … the root component of its tree, or a child deployed under an alias with a resource name
+                    # ("frame/alt": what it publishes as "default" from start() is named "alt")
+                    return {"op": "enter", "t": t, "c": c, "comp": rng.choice([True, "alias"])}
             return {"op": "enter", "t": t, "c": c}
         if kind == "exit":
             ts = [t for t, s in self.stacks.items() if s]
@@ -560,6 +562,14 @@ class KGen:
         for c in sorted(self.ctxs):
             ops.append({"op": "state", "t": 0, "c": c})
         return ops
+
+
+def realias(ops: list[dict[str, Any]]) -> list[dict[str, Any]]:
+    """Publications made through the module-level functions from the start() of a component deployed as "frame/alt"
+    under the name "default" are published as "alt" (C14's rule); nothing else is renamed - lookups in particular."""
+    aliased = {op["c"] for op in ops if op["op"] == "enter" and op.get("comp") == "alias"}
+    return [({**op, "name": "alt"} if op["op"] in ("add", "addf") and op.get("via") == "shortcut" and op.get("c") in aliased
+             and op.get("name") == "default" else op) for op in ops]
 
 
 def undefer(ops: list[dict[str, Any]]) -> list[dict[str, Any]]:
